@@ -99,6 +99,57 @@ func drawSecretScope(t *rapid.T) *gen.Scope {
 	return sc
 }
 
+// secretNamedStructure builds an expression in which secret strings become attribute
+// names or keys of a structure (object constructor with computed keys, for expressions in
+// plain and grouping mode, a function building an object), combined with an operation
+// whose error message describes structure: a conditional with an incompatible other
+// branch, an index or attribute access that misses, a conversion by a function parameter,
+// a template interpolation, or a duplicate key.
+func secretNamedStructure(t *rapid.T, sc *gen.Scope) ast.Node {
+	var strs, colls []string
+	for _, name := range sc.Names {
+		v := sc.Vals[name]
+		u, _ := v.Unmark()
+		if !v.ContainsMarked() || !u.IsKnown() || u.IsNull() || !plainIdent.MatchString(name) || reservedName[name] {
+			continue
+		}
+		switch {
+		case u.Type() == cty.String:
+			strs = append(strs, name)
+		case !v.IsMarked() && (u.Type().IsListType() || u.Type().IsTupleType() || u.Type().IsSetType()) && u.LengthInt() > 0:
+			// element-wise marks (a collection marked as a whole is the known for-expression finding)
+			colls = append(colls, name)
+		}
+	}
+	var named ast.Node
+	switch k := rapid.IntRange(0, 4).Draw(t, "named_kind"); {
+	case k <= 1 && len(strs) > 0:
+		s := ast.Var{Name: rapid.SampledFrom(strs).Draw(t, "s")}
+		named = ast.Object{Items: []ast.ObjItem{{Kind: ast.KeyParens, Key: s, Val: ast.Num{Text: "1"}}, {Kind: ast.KeyIdent, Name: "b", Val: ast.Tuple{}}}}
+	case k == 2 && len(strs) > 0:
+		named = ast.Call{Name: "mk", Args: []ast.Node{ast.Var{Name: rapid.SampledFrom(strs).Draw(t, "s")}}}
+	case len(colls) > 0:
+		coll := ast.Var{Name: rapid.SampledFrom(colls).Draw(t, "coll")}
+		key := ast.Template{Parts: []ast.TPart{ast.TInterp{X: ast.Var{Name: "e"}}}}
+		named = ast.For{ValVar: "e", Coll: coll, Key: key, Val: ast.Num{Text: "1"}, Group: rapid.Bool().Draw(t, "group")}
+	default:
+		return nil
+	}
+	other := ast.Object{Items: []ast.ObjItem{{Kind: ast.KeyIdent, Name: "a", Val: ast.Num{Text: "1"}}, {Kind: ast.KeyIdent, Name: "b", Val: ast.Tuple{}}}}
+	switch rapid.IntRange(0, 5).Draw(t, "sink") {
+	case 0, 1:
+		return ast.Cond{P: ast.Bool{V: rapid.Bool().Draw(t, "c")}, T: named, F: other}
+	case 2:
+		return ast.GetAttr{Obj: named, Name: "missing"}
+	case 3:
+		return ast.Index{Coll: named, Key: ast.Template{Parts: []ast.TPart{ast.TLit{Text: "missing"}}}}
+	case 4:
+		return ast.Call{Name: "upper", Args: []ast.Node{named}}
+	default:
+		return ast.Template{Parts: []ast.TPart{ast.TLit{Text: "x"}, ast.TInterp{X: named}}}
+	}
+}
+
 func scopeDumpUnsafe(sc *gen.Scope) map[string]string { return scopeDump(sc) }
 
 func TestC19_Diagnostics(t *testing.T) {
@@ -109,6 +160,12 @@ func TestC19_Diagnostics(t *testing.T) {
 			sc := drawSecretScope(t)
 			g := gen.NewEG(t, sc, gen.ExprOpts{IllTyped: 3, AvoidKeys: []string{gen.CanaryCoreA, gen.CanaryCoreB, gen.CanaryNum}})
 			n := g.Expr(cty.DynamicPseudoType)
+			if d := secretNamedStructure(t, sc); d != nil && rapid.IntRange(0, 5).Draw(t, "directed") == 0 {
+				// a structure whose attribute names / keys are secret content, pushed into a place
+				// that describes types or keys when it fails
+				c.Class("directed_secret_named_structure")
+				n = d
+			}
 			src, _ := render.Expression(n, render.Fixed{}, render.Opts{})
 			if f := leaks(src); f != "" {
 				c.Class("skipped_source_would_contain_canary")
